@@ -101,6 +101,10 @@ EXPLANATION += (
     ' Round 15: what winnow_process_dict returns is labelled as timing-dependent; a list collected by membership in it carries the label on its order; integer sums of extents are exact.'
 )
 
+EXPLANATION += (
+    ' Round 16: the functions that join worker pieces place every piece (cursor rules over the merge functions).'
+)
+
 RULE_TEXT = (
     "one obligation per (sink site, set of source labels) finding, per "
     "benign source used, per RNG construction, per merge loop, per worker "
